@@ -1143,7 +1143,7 @@ class CircuitDAG(CircuitBase):
         :return: nothing
         :rtype: None
         """
-        for node in self.node_dict["Output"]:
+        for node in self.node_dict.get("Output", []):
             # traverse the circuit DAG in the reversed order
             reg_type = self.dag.nodes[node]["op"].reg_type
             register = self.dag.nodes[node]["op"].register
